@@ -94,3 +94,89 @@ func VC05Grpc() {
 		vrt.Assert("disabled-entry-not-written", len(writes) == 0)
 	}
 }
+
+// vGSetCore enables an arbitrary set of the valid levels (bit i: level Debug+i); the set can change later.
+type vGSetCore struct {
+	set    *uint8
+	writes *[]zapcore.Entry
+}
+
+func (c vGSetCore) Enabled(l zapcore.Level) bool {
+	return l >= zapcore.DebugLevel && l <= zapcore.FatalLevel && *c.set&(1<<uint(l-zapcore.DebugLevel)) != 0
+}
+func (c vGSetCore) With([]zapcore.Field) zapcore.Core { return c }
+func (c vGSetCore) Check(e zapcore.Entry, ce *zapcore.CheckedEntry) *zapcore.CheckedEntry {
+	if c.Enabled(e.Level) {
+		return ce.AddCore(e, c)
+	}
+	return ce
+}
+func (c vGSetCore) Write(e zapcore.Entry, _ []zapcore.Field) error {
+	*c.writes = append(*c.writes, e)
+	return nil
+}
+func (c vGSetCore) Sync() error { return nil }
+
+// The adapter follows the live core: an arbitrary (also non-monotone) level set, and a level set or an
+// AtomicLevel that changes after the adapter was built.
+//
+//verif: prop=C05 bounds="zapgrpc adapter over (a) a core enabling an arbitrary set of the valid levels (symbolic 7-bit mask) that is replaced by another arbitrary set after NewLogger, (b) a core behind an AtomicLevel moved from any valid level to any other after NewLogger; then V(0..2) and Info/Warning/Error in plain, f and ln forms and Print/Printf/Println: V and delivery agree with the set in force at the call"
+func VC05GrpcLive() {
+	var writes []zapcore.Entry
+	var l *Logger
+	var enabled func(zapcore.Level) bool
+	if vrt.Choice("core", 2) == 0 {
+		set := vrt.Uint8("set0") & 0x7f
+		c := vGSetCore{set: &set, writes: &writes}
+		l = NewLogger(zap.New(c))
+		set = vrt.Uint8("set1") & 0x7f
+		enabled = c.Enabled
+	} else {
+		al := zap.NewAtomicLevelAt(zapcore.Level(vrt.IntRange("level0", -1, 5)))
+		thrCore := vGAtomicCore{al: al, writes: &writes}
+		l = NewLogger(zap.New(thrCore))
+		al.SetLevel(zapcore.Level(vrt.IntRange("level1", -1, 5)))
+		enabled = al.Enabled
+	}
+	lv := vrt.Choice("v", 3)
+	mapped := []zapcore.Level{zapcore.InfoLevel, zapcore.WarnLevel, zapcore.ErrorLevel}[lv]
+	vrt.Observe("V", l.V(lv))
+	vrt.Assert("V-consistent-with-enabled", l.V(lv) == enabled(mapped))
+	form := vrt.Choice("form", 4)
+	switch form {
+	case 0:
+		[]func(...interface{}){l.Info, l.Warning, l.Error}[lv]("m")
+	case 1:
+		[]func(string, ...interface{}){l.Infof, l.Warningf, l.Errorf}[lv]("%s", "m")
+	case 2:
+		[]func(...interface{}){l.Infoln, l.Warningln, l.Errorln}[lv]("m")
+	case 3: // the Print family logs at Info
+		mapped = zapcore.InfoLevel
+		[]func(){func() { l.Print("m") }, func() { l.Printf("%s", "m") }, func() { l.Println("m") }}[lv]()
+	}
+	if enabled(mapped) {
+		vrt.Assert("enabled-entry-written", len(writes) == 1 && writes[0].Level == mapped && writes[0].Message == "m")
+	} else {
+		vrt.Assert("disabled-entry-not-written", len(writes) == 0)
+	}
+	vrt.Cover("done")
+}
+
+type vGAtomicCore struct {
+	al     zap.AtomicLevel
+	writes *[]zapcore.Entry
+}
+
+func (c vGAtomicCore) Enabled(l zapcore.Level) bool      { return c.al.Enabled(l) }
+func (c vGAtomicCore) With([]zapcore.Field) zapcore.Core { return c }
+func (c vGAtomicCore) Check(e zapcore.Entry, ce *zapcore.CheckedEntry) *zapcore.CheckedEntry {
+	if c.Enabled(e.Level) {
+		return ce.AddCore(e, c)
+	}
+	return ce
+}
+func (c vGAtomicCore) Write(e zapcore.Entry, _ []zapcore.Field) error {
+	*c.writes = append(*c.writes, e)
+	return nil
+}
+func (c vGAtomicCore) Sync() error { return nil }
